@@ -83,6 +83,49 @@ def _cmp(case, impl, model):
     return impl == model
 
 
+def _acc_column_guard(ctx):
+    """Source guard for C14_acc_z_index_spec_gen: acc_column (transition branch) indexes z with the batch-LOCAL index
+    `z[i % z.len()]`; z.len() = constraint-evaluation blowup = 2^j <= blowup factor <= MAX_BLOWUP_FACTOR.  The theorem needs
+    2^j <= mn where mn is the minimum batch size passed to batch_iter_mut! there (batches are powers of two >= mn, hence
+    multiples of z.len()).  Read mn and the library's bounds off the current source."""
+    try:
+        src = open(os.path.join(vcheck.REPO, "prover/src/constraints/evaluation_table.rs")).read()
+        opt = open(os.path.join(vcheck.REPO, "air/src/options.rs")).read()
+        actx = open(os.path.join(vcheck.REPO, "air/src/air/context.rs")).read()
+    except OSError as ex:
+        ctx.ob("source-guard:acc_column-min-batch", False, str(ex))
+        return
+    consts = {m.group(1): int(m.group(2).replace("_", "")) for m in re.finditer(r"const\s+(\w+)\s*:\s*usize\s*=\s*([0-9_]+)\s*;", src)}
+    m = re.search(r"\nfn acc_column<.*?\n}\n", src, re.S)
+    mb = re.search(r"const\s+MAX_BLOWUP_FACTOR\s*:\s*usize\s*=\s*([0-9_]+)\s*;", opt)
+    ce_le_blowup = re.search(r"options\.blowup_factor\(\)\s*>=\s*ce_blowup_factor", actx) is not None
+    if not m or not mb:
+        ctx.ob("source-guard:acc_column-min-batch", False, "acc_column or MAX_BLOWUP_FACTOR not found in the source (model out of date)")
+        return
+    body, max_blowup = m.group(0), int(mb.group(1).replace("_", ""))
+    local_index = re.search(r"z\[\s*i\s*%\s*z\.len\(\)\s*\]", body[body.find("batch_iter_mut!"):] if "batch_iter_mut!" in body else "") is not None
+    call = re.search(r"batch_iter_mut!\(\s*(?:&mut\s+)?\w+\s*,\s*(\w+)\s*,", body)
+    tok = call.group(1) if call else None      # two-argument form of the macro (no minimum) = 1
+    if tok is None:
+        mn = 1 if "batch_iter_mut!" in body else None
+    elif tok.isdigit():
+        mn = int(tok)
+    else:
+        mn = consts.get(tok)
+    rec = {"min_batch_token": tok, "min_batch": mn, "MAX_BLOWUP_FACTOR": max_blowup, "ce_blowup<=blowup asserted by AirContext": ce_le_blowup,
+           "batch-local z index in acc_column": local_index}
+    ctx.notes["acc_column_min_batch_guard"] = rec
+    if not local_index:
+        # the code no longer uses the local index inside a batch: nothing to guard (the digests decide)
+        ctx.ob("source-guard:acc_column-min-batch", True)
+        return
+    pow2 = mn is not None and mn > 0 and (mn & (mn - 1)) == 0
+    ok = mn is not None and pow2 and ce_le_blowup and max_blowup <= mn
+    ctx.ob("source-guard:acc_column-min-batch", ok,
+           f"acc_column passes min batch size {tok}={mn} to batch_iter_mut! but looks z up with the batch-local index: needs a power of two >= "
+           f"MAX_BLOWUP_FACTOR={max_blowup} (C14_acc_z_index_spec_gen; C14_acc_z_index_min16_refuted: trace 8, ce blowup 32, 12 threads)")
+
+
 def _falsify(ctx, hb, tag, budget, env):
     rc, out, _ = vcheck.sh([hb, "falsify", str(ctx.seed), str(budget)], timeout=1500, env=env)
     nfail, summary = 0, ""
@@ -129,6 +172,7 @@ def run(ctx):
         "the two builds differ only by the cargo feature; rustc/LLVM compile both as written",
     ]
     ctx.audit_sources()
+    _acc_column_guard(ctx)
     ctx.coq_build("C14")
     if not quick:
         ctx.coqchk("C14")
